@@ -280,16 +280,19 @@ func (s *Scan) NewResponse() proto.Message {
 func (s *Scan) DeserializeCellBlocks(m proto.Message, b []byte) (uint32, error) {
 	scanResp := m.(*pb.ScanResponse)
 	partials := scanResp.GetPartialFlagPerResult()
-	scanResp.Results = make([]*pb.Result, len(partials))
+	cellsPerResult := scanResp.GetCellsPerResult()
+	// one result per cells_per_result entry; don't trust the server to
+	// send as many partial flags
+	scanResp.Results = make([]*pb.Result, len(cellsPerResult))
 	var readLen uint32
-	for i, numCells := range scanResp.GetCellsPerResult() {
+	for i, numCells := range cellsPerResult {
 		cells, l, err := deserializeCellBlocks(b[readLen:], numCells)
 		if err != nil {
 			return 0, err
 		}
 		scanResp.Results[i] = &pb.Result{
 			Cell:    cells,
-			Partial: proto.Bool(partials[i]),
+			Partial: proto.Bool(i < len(partials) && partials[i]),
 		}
 		readLen += l
 	}
